@@ -394,13 +394,24 @@ Lemma pointcloud_xml_ok_split exts pc :
   pointcloud_xml_ok exts pc = pc_strings pc && forallb (record_xml_ok exts) (pc_prototype pc).
 Proof. reflexivity. Qed.
 
+(** float limits of a prototype: numbers with minimum <= maximum (the writer's check since
+    /repo eaf8fc6) that are f32 / f64 bit patterns (the model's [N] is unbounded) *)
+Definition float_bits_ok (t : data_type) : bool :=
+  match t with
+  | DSingle mn mx => ofo (fun x => f32_bits x <? 2 ^ 32) mn && ofo (fun x => f32_bits x <? 2 ^ 32) mx
+  | DDouble mn mx => ofo (fun x => f64_bits x <? 2 ^ 64) mn && ofo (fun x => f64_bits x <? 2 ^ 64) mx
+  | _ => true
+  end.
+Definition limits_good (t : data_type) : bool := float_limits_ok t && float_bits_ok t.
+Definition proto_limits_good (p : list record) : bool := forallb (fun r => limits_good (r_type r)) p.
+
 (** what the state machine guarantees of a descriptor it holds *)
 Definition pc_good (exts : list extension) (pc : pointcloud) : Prop :=
   ext_validate_prototype (pc_prototype pc) exts = Ok tt /\
   forallb (fun r => dtype_ok (r_type r)) (pc_prototype pc) = true /\
   pc_strings pc = true /\
   ofo ib_ok (pc_index_bounds pc) = true /\ ofo il_ok (pc_intensity_limits pc) = true /\
-  ofo cl_ok (pc_color_limits pc) = true.
+  ofo cl_ok (pc_color_limits pc) = true /\ proto_limits_good (pc_prototype pc) = true.
 
 (** limits complete or absent (incomplete limits are silently not written: known finding) *)
 Definition pc_limits_complete (pc : pointcloud) : bool :=
@@ -438,7 +449,7 @@ Lemma pc_final exts pc : exts_good exts -> pc_good exts pc -> pc_limits_complete
   pointcloud_xml_ok exts (fill_pc fmt64 fmt32 pc) = true /\
   pc_ok exts (fill_pc fmt64 fmt32 pc) = true.
 Proof.
-  intros Hg (Hv & Hd & Hs & Hib & Hil & Hcl) Hc Hu.
+  intros Hg (Hv & Hd & Hs & Hib & Hil & Hcl & _) Hc Hu.
   pose proof (record_names_ok exts (pc_prototype pc) Hg Hv) as Hn.
   unfold pc_limits_complete in Hc. apply andb_prop in Hc as [Hci Hcc].
   unfold pc_u64 in Hu. apply andb_prop in Hu as [Hu1 Hu2].
